@@ -139,7 +139,7 @@ func (sc Script) RunImpl(expected []string) (int, string, string) {
 		}
 		want := expected[i]
 		got := ""
-		ok := Eventually(8*time.Second, func() bool { got = w.Observe(); return got == want })
+		ok := Eventually(opBudget, func() bool { got = w.Observe(); return got == want })
 		if !ok {
 			return i, got, want
 		}
@@ -258,6 +258,9 @@ func GenRaw(r *hlib.Rng, hevc bool) *RawSpec {
 	}
 	return sp
 }
+
+// opBudget: how long an observation may take to reach the expected one (costs nothing when it does)
+const opBudget = 45 * time.Second
 
 // CatchUpLost counts the scripts in which the stream's demuxer stopped following the publisher
 var CatchUpLost int64
